@@ -109,7 +109,7 @@ Lemma run_keeps_gview : forall ops S x, no_tombs S -> wf S -> pulls_in_range (le
 Proof.
   induction ops as [|o ops IH]; intros S x Ht Hw Hr Hc; [reflexivity|]. cbn [run_sys run_complete] in *.
   apply Bool.andb_true_iff in Hc. destruct Hc as [Hc0 Hc].
-  pose proof (Hr o (or_introl eq_refl)) as Ho. destruct o as [p y t sg|p y t sg|p y t|p y z t sg|p y z t sg|d s days]; try contradiction.
+  pose proof (Hr o (or_introl eq_refl)) as Ho. destruct o as [p y t sg|p y t sgs|p y t sg|p y t|p y z t sg|p y z t sg|d s days]; try contradiction.
   destruct Ho as [Hd Hs].
   destruct (step_inv S (Pull d s days) Hw Ht eq_refl) as [W [T L]].
   rewrite IH; try assumption.
@@ -132,7 +132,7 @@ Proof.
   assert (L1 : length S1 = length S).
   { assert (G : forall ops0 S0, pulls_in_range (length S0) ops0 -> wf S0 -> no_tombs S0 -> length (run_sys S0 ops0) = length S0).
     { induction ops0 as [|o ops0 IH0]; intros S0 R0 W0 T0; [reflexivity|]. cbn [run_sys].
-      pose proof (R0 o (or_introl eq_refl)) as Ho. destruct o as [? ? ? ?|? ? ? ?|? ? ?|? ? ? ? ?|? ? ? ? ?|d s days]; try contradiction.
+      pose proof (R0 o (or_introl eq_refl)) as Ho. destruct o as [? ? ? ?|? ? ? ?|? ? ? ?|? ? ?|? ? ? ? ?|? ? ? ? ?|d s days]; try contradiction.
       destruct (step_inv S0 (Pull d s days) W0 T0 eq_refl) as [W [T L]]. rewrite IH0; try assumption.
       rewrite L. intros o Hin. apply R0. right. exact Hin. }
     apply G; assumption. }
